@@ -25,6 +25,12 @@ type jsGen struct {
 
 var jsNames = []string{"a", "b", "c", "d", "x", "y", "f", "g", "obj", "arr"}
 var jsLeaves = []string{"0", "1", "42", "1.50", "0x1F", "1e3", ".5", "10n", "'s'", "\"t\"", "'it\\'s'", "true", "false", "null", "undefined", "this", "/a+/g", "`t${a}u`", "NaN", "Infinity", "[]", "{}", "''"}
+// numeric literals at the edges of what the number rewriting handles: long and short hex,
+// binary, octal, separators, exponents on both sides of the switch to exponent notation,
+// integers beyond 2^53, leading and trailing zeros
+var jsNumbers = []string{"0xF", "0xFFFFFFFFFF", "0xfffffffffffff", "0XABCDEF0123", "0x0", "0b1010", "0B11111111111111111111111111111111", "0o777", "0777", "1_000_000", "1e21", "1e-7", "1E+3", ".5e-10", "5.e3",
+	"9007199254740993", "123456789012345678901234567890", "0.000001", "0.0000001", "100000", "1000000", "1.0", "1.10", "00", "0.", "1e0", "1e999", "999999999999999999999n", "0x1p3", "08", "0.1e1", "12.340e-2"}
+
 var jsBin = []string{"==", "!=", "===", "!==", "&&", "||", "&&", "||", "==", "===", "&&", "||", "!==", "!=", "&&", "||", "==", "||", "&&", "===", "==", "!=", "===", "!==", "<", ">", "<=", ">=", "&&", "||", "??", "+", "-", "*", "/", "%", "**", "&", "|", "^", "<<", ">>", ">>>", " in ", " instanceof ", ","}
 var jsUn = []string{"!", "!", "!", "!", "!", "!", "!", "!", "!", "-", "+", "typeof ", "void ", "~", "delete ", "await ", "++", "--", "!!", "- -"}
 var jsAssign = []string{"=", "+=", "-=", "*=", "||=", "&&=", "??=", ">>>=", "**="}
@@ -32,9 +38,53 @@ var jsAssign = []string{"=", "+=", "-=", "*=", "||=", "&&=", "??=", ">>>=", "**=
 func (g *jsGen) w(s string)   { g.b.WriteString(s) }
 func (g *jsGen) name() string { return jsNames[g.tape.Draw(len(jsNames))] }
 
+// cond derives a condition: comparisons joined by && and ||, negated and parenthesised at
+// every level - the part of the expression grammar where minifiers rewrite most (De Morgan,
+// comparison flipping, removal of double negations and of groups).
+func (g *jsGen) cond(d int) {
+	g.n++
+	k := g.tape.Draw(7)
+	if d <= 0 || g.n > 60 {
+		k = 0
+	}
+	switch k {
+	case 0, 1:
+		if g.tape.Draw(4) == 0 {
+			g.w(g.name())
+			return
+		}
+		g.w(g.name() + []string{"==", "!=", "===", "!==", "<", ">=", " in ", "&", "??"}[g.tape.Draw(9)] + []string{g.name(), "0", "null", "'s'", "undefined", "-1"}[g.tape.Draw(6)])
+	case 2:
+		g.w("!")
+		g.cond(d - 1)
+	case 3:
+		g.w("(")
+		g.cond(d - 1)
+		g.w(")")
+	case 4:
+		g.cond(d - 1)
+		g.w("&&")
+		g.cond(d - 1)
+	case 5:
+		g.cond(d - 1)
+		g.w("||")
+		g.cond(d - 1)
+	default:
+		g.cond(d - 1)
+		g.w("?")
+		g.cond(d - 1)
+		g.w(":")
+		g.cond(d - 1)
+	}
+}
+
 func (g *jsGen) expr(d int) {
 	g.n++
-	k := g.tape.Draw(16)
+	k := g.tape.Draw(18)
+	if k >= 16 {
+		g.cond(d + 1)
+		return
+	}
 	if d <= 0 || g.n > 60 {
 		k = g.tape.Draw(2)
 	}
@@ -42,6 +92,10 @@ func (g *jsGen) expr(d int) {
 	case 0:
 		g.w(g.name())
 	case 1:
+		if g.tape.Draw(3) == 0 {
+			g.w(jsNumbers[g.tape.Draw(len(jsNumbers))])
+			break
+		}
 		g.w(jsLeaves[g.tape.Draw(len(jsLeaves))])
 	case 2:
 		g.w(jsUn[g.tape.Draw(len(jsUn))])
@@ -88,7 +142,11 @@ func (g *jsGen) expr(d int) {
 		}
 	case 10:
 		g.w(g.name() + jsAssign[g.tape.Draw(len(jsAssign))])
-		g.expr(d - 1)
+		if g.tape.Draw(3) == 0 {
+			g.cond(d)
+		} else {
+			g.expr(d - 1)
+		}
 	case 11:
 		if g.tape.Draw(2) == 0 {
 			g.w(g.name() + "=>")
@@ -112,7 +170,11 @@ func (g *jsGen) expr(d int) {
 				g.expr(d - 1)
 			case 2:
 				g.w("...")
-				g.expr(d - 1)
+				if g.tape.Draw(2) == 0 {
+					g.w(jsLeaves[g.tape.Draw(len(jsLeaves))]) // a spread of a literal
+				} else {
+					g.expr(d - 1)
+				}
 			case 3:
 				g.w(g.name())
 			case 4:
@@ -162,11 +224,23 @@ func (g *jsGen) stmt(d int) {
 		g.w(";")
 	case 3, 4:
 		g.w([]string{"var ", "let ", "const ", "var "}[g.tape.Draw(4)])
+		few := g.tape.Draw(2) == 0 // the same two or three names again and again: redeclarations
 		for i, n := 0, 1+g.tape.Draw(3); i < n; i++ {
 			if i > 0 {
 				g.w(",")
 			}
-			switch g.tape.Draw(5) {
+			k := g.tape.Draw(5)
+			if few {
+				nm := jsNames[g.tape.Draw(3)]
+				if k == 0 {
+					g.w(nm)
+				} else {
+					g.w(nm + "=")
+					g.expr(d - 1)
+				}
+				continue
+			}
+			switch k {
 			case 0:
 				g.w(g.name())
 			case 1:
@@ -183,7 +257,11 @@ func (g *jsGen) stmt(d int) {
 		g.w(";")
 	case 5, 6:
 		g.w("if(")
-		g.expr(d - 1)
+		if g.tape.Draw(2) == 0 {
+			g.cond(d)
+		} else {
+			g.expr(d - 1)
+		}
 		g.w(")")
 		g.stmt(d - 1)
 		if g.tape.Draw(2) == 0 {
@@ -192,7 +270,11 @@ func (g *jsGen) stmt(d int) {
 		}
 	case 7:
 		g.w("while(")
-		g.expr(d - 1)
+		if g.tape.Draw(2) == 0 {
+			g.cond(d)
+		} else {
+			g.expr(d - 1)
+		}
 		g.w(")")
 		g.stmt(d - 1)
 	case 8:
@@ -245,6 +327,22 @@ func (g *jsGen) stmt(d int) {
 			g.w("}")
 		}
 		g.w("}")
+	case 16:
+		// a run of var statements over two or three names (and a use in between): hoisting
+		// and merging of declarations
+		for i, n := 0, 2+g.tape.Draw(3); i < n; i++ {
+			g.w("var ")
+			for j, m := 0, 1+g.tape.Draw(3); j < m; j++ {
+				if j > 0 {
+					g.w(",")
+				}
+				g.w(jsNames[g.tape.Draw(3)])
+				if g.tape.Draw(2) == 0 {
+					g.w("=" + []string{"0", "1", "5", "a", "f()"}[g.tape.Draw(5)])
+				}
+			}
+			g.w([]string{";", ";", ";for(;;);", ";f(a);"}[g.tape.Draw(4)])
+		}
 	case 15:
 		g.w("do ")
 		g.stmt(d - 1)
